@@ -986,12 +986,8 @@ def _(e):
 
 
 # ---- I. documented unsupported index forms ---------------------------------------------------------------
-@row("sptensor.__setitem__:linear-index-N>1", (2, 3))
-def _(e):
-    X = e.sptensor()
-    return "sptensor.__setitem__", X.__setitem__, (0, 1.0), {}, X, {}
-
-
+# (no row for linear-index assignment to a sparse tensor of order >= 2: the library does not support that form today, but the
+# property does not list it as ill-formed - an implementation that carries it out correctly is not a violation; see DESIGN 9.7)
 @row("tensor.__setitem__:growth-by-linear-index", (2, 3))
 def _(e):
     X = e.tensor()
